@@ -181,7 +181,7 @@ struct World : KernelHooks, ModelHost {
 	void c19_quiescent();
 	int classify_ws(Client &cl, const WsInFrame &wf);
 	bool wsstrict = false;
-	int last_accepted = -1;
+	int last_accepted = -1; int epoll_intr = 0;   // fault: epoll_wait is interrupted by a signal that is not the termination signal
 	int last_fed_client = -1; int presumed_drop = -1; std::string presumed_prop, presumed_rule, presumed_detail;
 	bool try_match(Client &cl, const Frame &f, std::string &why);
 	bool match_close(Client &cl);
